@@ -105,6 +105,72 @@ fn check_record(code: i32) -> Option<(String, String)> {
     }
 }
 
+/// Typed record route: the same one-record file read as the concrete type whose code
+/// equals the low byte of `code` (Point if there is none).  An invalid code must be
+/// reported as InvalidShapeType(code) even if it resembles the requested type.
+fn check_record_typed(code: i32) -> Option<(String, String)> {
+    use crate::with_ty;
+    let mut b = codec::encode_header(50 + 4 + 10, 1, &[0.0; 8]);
+    b.extend(1i32.to_be_bytes());
+    b.extend(10i32.to_be_bytes());
+    b.extend(code.to_le_bytes());
+    b.extend([0u8; 16]);
+    let low = Ty::from_code(code & 0xff).filter(|t| *t != Ty::Null).unwrap_or(Ty::Point);
+    let mut out = None;
+    for req in [low, Ty::Point, Ty::PolygonZ] {
+        let r: Option<Result<Ty, String>> = with_ty!(req, S => {
+            let mut r = match ShapeReader::new(Dev::quiet(b.clone())) { Ok(r) => r, Err(e) => return Some(("typed-record:open".into(), err_kind(&e))) };
+            let x = r.iter_shapes_as::<S>().next();
+            x.map(|x| x.map(|s| variant_ty(&shapefile::Shape::from(s))).map_err(|e| err_kind(&e)))
+        }, unreachable!());
+        let bad = match (&r, Ty::from_code(code)) {
+            (Some(Err(e)), None) => *e != format!("InvalidShapeType({})", code),
+            (Some(Ok(_)), None) => true,
+            (Some(Ok(t)), Some(w)) => *t != w,
+            (Some(Err(e)), Some(w)) => {
+                // a valid code: a mismatch names both types, a size error is fine, never InvalidShapeType
+                if w != req { *e != format!("MismatchShapeType(requested={},actual={})", req.code(), w.code()) } else { e.starts_with("InvalidShapeType") }
+            }
+            (None, _) => true,
+        };
+        if bad {
+            out = Some(("typed-record:wrong-answer".to_string(), format!("record code {} read as {}: {:?}", code, req.name(), r)));
+        }
+    }
+    out
+}
+
+/// Index route: a valid .shp with a .shx whose header carries `code`, in memory and opened by path.
+fn check_shx_header(code: i32, on_disk: bool) -> Option<(String, String)> {
+    let mut shp = codec::encode_header(50 + 4 + 10, 1, &[0.0; 8]);
+    shp.extend(1i32.to_be_bytes());
+    shp.extend(10i32.to_be_bytes());
+    shp.extend(1i32.to_le_bytes());
+    shp.extend([0u8; 16]);
+    let mut shx = codec::encode_header(54, code, &[0.0; 8]);
+    shx.extend(50i32.to_be_bytes());
+    shx.extend(10i32.to_be_bytes());
+    let r: Result<(), String> = if on_disk {
+        let dir = super::c01_c02::scratch_dir();
+        let tid: String = format!("{:?}", std::thread::current().id()).chars().filter(|c| c.is_ascii_digit()).collect();
+        let p = dir.join(format!("c19-{}.shp", tid));
+        std::fs::write(&p, &shp).ok()?;
+        std::fs::write(p.with_extension("shx"), &shx).ok()?;
+        let r = ShapeReader::from_path(&p).map(|_| ()).map_err(|e| err_kind(&e));
+        let _ = std::fs::remove_file(&p);
+        let _ = std::fs::remove_file(p.with_extension("shx"));
+        r
+    } else {
+        ShapeReader::with_shx(Dev::quiet(shp), Dev::quiet(shx)).map(|_| ()).map_err(|e| err_kind(&e))
+    };
+    let route = if on_disk { "shx-header:from_path" } else { "shx-header:with_shx" };
+    match (r, Ty::from_code(code)) {
+        (Ok(()), Some(_)) => None,
+        (Err(e), None) if e == format!("InvalidShapeType({})", code) => None,
+        (r, _) => Some((format!("{}:wrong-answer", route), format!("index header code {}: {:?}", code, r))),
+    }
+}
+
 fn structured_codes() -> Vec<i32> {
     let mut v: Vec<i32> = (-4096..=4096).collect();
     for i in 0..32 {
@@ -115,6 +181,11 @@ fn structured_codes() -> Vec<i32> {
         }
     }
     for t in ALL14 {
+        // codes that resemble a valid one in their low byte / low half
+        for m in [1i32, 2, 3, 255, 256, 257, 65535, 65536, (1 << 23) - 1, 1 << 23] {
+            v.push(t.code().wrapping_add(m.wrapping_mul(256)));
+            v.push(t.code().wrapping_sub(m.wrapping_mul(256)));
+        }
         v.push(t.code().swap_bytes());
         v.push(t.code() | i32::MIN);
         v.push(t.code() << 8);
@@ -165,6 +236,7 @@ pub fn check(tier: Tier) -> i32 {
         let lo = (b as i64) << 20;
         let mut somes = 0u64;
         let mut hdr = header_with(0);
+        let mut rec = [0u8; 20];
         ctx.track_hashes = false;
         for k in 0..(1i64 << 20) {
             let code = (lo + k) as u32 as i32;
@@ -177,6 +249,19 @@ pub fn check(tier: Tier) -> i32 {
             if full_header {
                 if let Some((sig, d)) = check_header(code, &mut hdr) {
                     ctx.violation(sig, || json!({"route": "header", "code": code}), || d);
+                }
+                // typed decoding of the record type code, for all 2^32 values, as the type its low byte resembles
+                let low = Ty::from_code(code & 0xff).filter(|t| *t != Ty::Null).unwrap_or(Ty::Point);
+                rec[0..4].copy_from_slice(&code.to_le_bytes());
+                let r: Result<(), String> = crate::with_ty!(low, S => <S as shapefile::ReadableShape>::read_from(&mut &rec[..], 20).map(|_| ()).map_err(|e| err_kind(&e)), unreachable!());
+                let ok = match (Ty::from_code(code), &r) {
+                    (None, Err(e)) => *e == format!("InvalidShapeType({})", code),
+                    (None, Ok(())) => false,
+                    (Some(_), Err(e)) => !e.starts_with("InvalidShapeType"),
+                    (Some(_), Ok(())) => true,
+                };
+                if !ok {
+                    ctx.violation("typed-decode:wrong-answer", || json!({"route": "typed-record", "code": code}), || format!("{:?}", r));
                 }
             }
         }
@@ -197,6 +282,21 @@ pub fn check(tier: Tier) -> i32 {
         ctx.case_done(hh.finish(), true, oh.finish());
         if let Some((sig, d)) = check_header(*c, &mut hdr) {
             ctx.violation(sig, || json!({"route": "header", "code": c}), || d);
+        }
+        for (k, f) in [(0usize, check_record_typed as fn(i32) -> Option<(String, String)>)] {
+            match catch(|| f(*c)) {
+                Ok(Some((sig, d))) => ctx.violation(sig, || json!({"route": "typed-record", "code": c}), || d),
+                Ok(None) => {}
+                Err(p) => ctx.violation(format!("typed-record:{}:{}", k, p.sig()), || json!({"route": "typed-record", "code": c}), || p.msg.clone()),
+            }
+        }
+        if let Ok(Some((sig, d))) = catch(|| check_shx_header(*c, false)) {
+            ctx.violation(sig, || json!({"route": "shx-header", "code": c}), || d);
+        }
+        if c.rem_euclid(37) == 0 || Ty::from_code(*c & 0xff).is_some() && c.unsigned_abs() < 70000 {
+            if let Ok(Some((sig, d))) = catch(|| check_shx_header(*c, true)) {
+                ctx.violation(sig, || json!({"route": "shx-header-disk", "code": c}), || d);
+            }
         }
         match catch(|| check_record(*c)) {
             Ok(Some((sig, d))) => ctx.violation(sig, || json!({"route": "record", "code": c}), || d),
@@ -243,7 +343,7 @@ pub fn check(tier: Tier) -> i32 {
             tier,
             level: "model_checking",
             engine: "complete enumeration of the 2^32 code domain on the real ShapeType::from (and Header::read_from in the thorough tier), plus structured codes through header and record routes",
-            rule: "ShapeType::from(c) for all 2^32 values c against the literal ESRI table (counted in blocks of 2^20, so distinct == evaluations by construction for that part); header and one-record-file routes over the structured set (|c|<=4096, all one- and two-bit patterns and complements, byte-swapped / shifted / negated valid codes, +-4096 around i32::MIN/MAX) in quick and over all 2^32 headers in thorough; predicates and Display for the 14 types",
+            rule: "ShapeType::from(c) for all 2^32 values c against the literal ESRI table (counted in blocks of 2^20, so distinct == evaluations by construction for that part); header, one-record-file (generic and typed: read as the type whose code equals the low byte), and index-header (with_shx and from_path) routes over the structured set (|c|<=4096, all one- and two-bit patterns and complements, byte-swapped / shifted / negated valid codes, +-4096 around i32::MIN/MAX, valid codes +- m*256 for m up to 2^23) in quick and over all 2^32 headers in thorough; predicates and Display for the 14 types",
             bounds: json!({"domain": "2^32 complete", "structured_codes": codes.len(), "header_route_complete": full_header}),
             exhaustive: true,
             assumptions: vec!["distinct_nontrivial for the 2^32 sweep is the size of the swept domain (each value visited exactly once by construction), not a hash count".into()],
@@ -265,6 +365,9 @@ pub fn replay(v: &Value) -> Vec<(String, String)> {
         "from" => check_from(code).map(|(s, d)| (format!("from:{}", s), d)),
         "header" => check_header(code, &mut header_with(0)),
         "record" => check_record(code),
+        "typed-record" => check_record_typed(code),
+        "shx-header" => check_shx_header(code, false),
+        "shx-header-disk" => check_shx_header(code, true),
         "predicates" => return predicates(),
         "from-count" => {
             let n = (0..=u32::MAX).filter(|c| ShapeType::from(*c as i32).is_some()).count();
